@@ -269,7 +269,7 @@ pub fn callback_cases(ev: &mut Ev) -> (u64, Vec<Violation>) {
 
 const SETTERS: [&str; 8] = ["names", "producers", "dwarf", "preserve_ct", "stable", "synthetic", "strict", "on_parse"];
 
-fn apply_setter(c: &mut walrus::ModuleConfig, name: &str, v: bool, count: &Arc<AtomicUsize>) {
+fn apply_setter(c: &mut walrus::ModuleConfig, name: &str, v: bool, counts: &mut Vec<Arc<AtomicUsize>>) {
     match name {
         "names" => {
             c.generate_name_section(v);
@@ -293,9 +293,11 @@ fn apply_setter(c: &mut walrus::ModuleConfig, name: &str, v: bool, count: &Arc<A
             c.strict_validate(v);
         }
         _ => {
-            let c2 = count.clone();
+            // every registration gets a counter of its own: a later registration replaces the earlier one
+            let mine = Arc::new(AtomicUsize::new(0));
+            counts.push(mine.clone());
             c.on_parse(move |_, _| {
-                c2.fetch_add(1, Ordering::SeqCst);
+                mine.fetch_add(1, Ordering::SeqCst);
                 Ok(())
             });
         }
@@ -328,11 +330,17 @@ pub fn check_setters(c: &Case) -> CaseResult {
         }
     }
     // real
-    let count = Arc::new(AtomicUsize::new(0));
+    let mut counts: Vec<Arc<AtomicUsize>> = vec![];
     let mut real = walrus::ModuleConfig::new();
     for (n, v) in &seq {
-        apply_setter(&mut real, n, *v, &count);
+        apply_setter(&mut real, n, *v, &mut counts);
     }
+    // (runs of the last registered callback, runs of all the earlier ones together)
+    let runs = |counts: &Vec<Arc<AtomicUsize>>| -> (usize, usize) {
+        let last = counts.last().map(|c| c.load(Ordering::SeqCst)).unwrap_or(0);
+        let earlier: usize = counts.iter().rev().skip(1).map(|c| c.load(Ordering::SeqCst)).sum();
+        (last, earlier)
+    };
     r.valid_input = true;
     let got = std::panic::catch_unwind(std::panic::AssertUnwindSafe(|| real.parse(&c.wasm).map(|mut m| m.emit_wasm())));
     let want = roundtrip(&c.wasm, &st, false);
@@ -342,9 +350,12 @@ pub fn check_setters(c: &Case) -> CaseResult {
         (Ok(Ok(g)), Ok(w)) => {
             r.nontrivial = true;
             r.digests.push(wmodel::fnv(&g));
-            let k = count.load(Ordering::SeqCst);
+            let (k, earlier) = runs(&counts);
             if k != cb as usize {
-                bad(&format!("on-parse-count:{}:on-ok", k.min(2)), format!("after the setter calls {:?} the parse callback ran {} times", seq, k));
+                bad(&format!("on-parse-count:{}:on-ok", k.min(2)), format!("after the setter calls {:?} the last registered parse callback ran {} times", seq, k));
+            }
+            if earlier != 0 {
+                bad("on-parse-replaced-callback-ran", format!("after the setter calls {:?} a callback that a later registration replaced ran {} times", seq, earlier));
             }
             if g != w {
                 let names = |b: &[u8]| raw_sections(b).into_iter().filter(|s| s.0 == 0).map(|s| s.1).collect::<Vec<_>>();
@@ -359,7 +370,8 @@ pub fn check_setters(c: &Case) -> CaseResult {
             }
         }
         (Ok(Err(_)), Err(Fail::Rejected(_))) => {
-            if count.load(Ordering::SeqCst) != 0 {
+            let (k, earlier) = runs(&counts);
+            if k + earlier != 0 {
                 bad("on-parse-count:1:on-err", format!("after the setter calls {:?} the parse failed but the callback ran", seq));
             }
         }
